@@ -82,7 +82,7 @@ CONF_DOCS = [["p", "q", "r"], {1: "int", "1": "str", "a": ["x", "y"], 0: "zero"}
 
 
 def units(tier):
-    return gen.chunks(len(_paths(tier)), 8 if tier == "quick" else 12) + [["H", i] for i in range(len(CONFUSABLE))]
+    return gen.chunks(len(_paths(tier)), 3 if tier == "quick" else 6) + [["H", i] for i in range(len(CONFUSABLE))]
 
 
 def run_unit(unit, tier):
